@@ -103,3 +103,95 @@ pub fn fuzz_entry(target: &str, data: &[u8]) -> Result<(), String> {
         None => Err(format!("unknown fuzz target {}", target)),
     }
 }
+
+/// Small valid inputs per fuzz target, produced by the generators of the PBT checks
+/// (`check --emit-corpus DIR` writes them; the committed copy lives in /verif/corpus).
+pub fn seed_corpus(target: &str) -> Vec<Vec<u8>> {
+    use c05_packet_rt::{write_case, Body, Ctrl, PCase};
+    let packets = |is7: bool| -> Vec<Vec<u8>> {
+        let cases = vec![
+            PCase::Connless { family: 3, len: 20, seed: 1, token: [1, 2, 3, 4], response_token: [5, 6, 7, 8] },
+            PCase::Control { ack: 5, token: Some([9, 8, 7, 6]), ctrl: Ctrl::KeepAlive, response_token: [1, 1, 1, 1] },
+            PCase::Control { ack: 0, token: Some([0xff; 4]), ctrl: Ctrl::Connect, response_token: [2, 2, 2, 2] },
+            PCase::Control { ack: 0, token: Some([9, 8, 7, 6]), ctrl: Ctrl::ConnectAcceptOrToken, response_token: [3, 3, 3, 3] },
+            PCase::Control { ack: 1, token: None, ctrl: Ctrl::Accept, response_token: [1, 1, 1, 1] },
+            PCase::Control { ack: 1023, token: Some([9, 8, 7, 6]), ctrl: Ctrl::Close(b"too slow".to_vec()), response_token: [1, 1, 1, 1] },
+            PCase::Control { ack: 3, token: None, ctrl: Ctrl::Close(vec![]), response_token: [1, 1, 1, 1] },
+            PCase::Chunks { ack: 7, token: Some([9, 8, 7, 6]), request_resend: false, body: Body::Chunks(vec![(Some((8, false)), 3, 20, 1), (None, 4, 5, 2), (Some((9, true)), 0, 40, 0)]) },
+            PCase::Chunks { ack: 7, token: None, request_resend: true, body: Body::Chunks(vec![]) },
+            PCase::Chunks { ack: 300, token: Some([1, 2, 3, 4]), request_resend: false, body: Body::Raw { num_chunks: 2, family: 0, len: 600, seed: 0 } },
+            PCase::Chunks { ack: 300, token: Some([1, 2, 3, 4]), request_resend: false, body: Body::Raw { num_chunks: 1, family: 4, len: 100, seed: 9 } },
+        ];
+        cases.iter().filter_map(|c| write_case(c, is7).ok().map(|x| x.0)).collect()
+    };
+    match target {
+        "packet6" => packets(false),
+        "packet7" => packets(true),
+        "huffman_decode" | "huffman_compress" => {
+            let mut v = Vec::new();
+            for plain in [&b""[..], &b"\0\0\0\0\0\0\0\0"[..], &b"hello world"[..], &[0, 1, 0, 2, 0, 0x80, 0][..], &[0xff; 40][..]] {
+                if target == "huffman_compress" {
+                    v.push(plain.to_vec());
+                } else {
+                    let mut out: Vec<u8> = Vec::with_capacity(plain.len() * 3 + 16);
+                    let _ = libtw2_huffman::instances::TEEWORLDS.compress(plain, &mut out);
+                    let mut d = (plain.len() as u16 + 1).to_le_bytes().to_vec();
+                    d.extend_from_slice(&out);
+                    v.push(d);
+                }
+            }
+            v
+        }
+        "snap_read" | "delta_apply" => {
+            let items: Vec<Vec<(u32, Vec<i32>)>> = vec![
+                vec![],
+                vec![(0x0001_0000, vec![7]), (0x0001_0001, vec![1, 2, 3]), (0x0005_0000, vec![])],
+                vec![(0x0000_4000, vec![0x1234_5678, 0x0abc_def0, 0x1111_2222, 0x3333_4444]), (0x4000_0003, vec![5, 6]), (0x0004_0002, vec![-1, i32::MIN, i32::MAX])],
+            ];
+            let mut v = Vec::new();
+            for it in &items {
+                let (ints, _) = c11_snap_total::snap_wire(it);
+                let bytes = c11_snap_total::varints(&ints);
+                if target == "snap_read" {
+                    v.push(bytes);
+                } else {
+                    // base snapshot ++ delta; first byte = split position (x/255 of the rest)
+                    for delta in [vec![0, 0, 0], vec![0, 1, 0, 1, 0, 1, 5], vec![1, 1, 0, 0x0001_0000, 4, 9, 2, 1, 2]] {
+                        let d = c11_snap_total::varints(&delta);
+                        let total = bytes.len() + d.len();
+                        let split = if total == 0 { 0 } else { (bytes.len() * 255 + total - 1) / total };
+                        let mut x = vec![split.min(255) as u8];
+                        x.extend_from_slice(&bytes);
+                        x.extend_from_slice(&d);
+                        v.push(x);
+                    }
+                }
+            }
+            v
+        }
+        "gamenet" => vec![vec![0, 1], vec![1, 2, 0], vec![2 | 4, 40, 0], vec![3 | 8, 0xff, 0xff, 0xff, 0xff, b'i', b'n', b'f', b'o'], vec![1 | 12, 5, 0, 1, 0, 0, 0, 2, 0, 0, 0, 3, 0, 0, 0, 4, 0, 0, 0]],
+        "datafile" => {
+            use c16_datafile::{write_model, MData, MItem, Model};
+            let mut v = Vec::new();
+            for (version, crude) in [(3u8, false), (4, false), (4, true)] {
+                let m = Model {
+                    version,
+                    crude,
+                    reversed_magic: false,
+                    items: vec![
+                        MItem { type_id: 0, id: 0, data: vec![1], pad: 0 },
+                        MItem { type_id: 1, id: 0, data: vec![1, 0, -1, 3], pad: 0 },
+                        MItem { type_id: 5, id: 0, data: vec![], pad: 0 },
+                        MItem { type_id: 5, id: 2, data: vec![7, 8], pad: 0 },
+                    ],
+                    data: vec![MData { bytes: b"hello datafile".to_vec(), comp: 0, split: 3 }, MData { bytes: vec![], comp: 1, split: 1 }, MData { bytes: vec![0; 64], comp: 4, split: 0 }],
+                };
+                v.push(write_model(&m));
+            }
+            v
+        }
+        "teehistorian" => c17_teehistorian::seed_streams(),
+        "serverbrowse" => c18_serverbrowse::seed_datagrams(),
+        _ => Vec::new(),
+    }
+}
